@@ -1,0 +1,6 @@
+//go:build !verif
+
+package ha
+
+// verifGate is a no-op outside verification builds (see verif_hooks.go).
+func verifGate(*FailoverController, string) {}
